@@ -260,6 +260,11 @@ pub struct Runtime<'a> {
     // Function scopes mirror lexical block scopes so lookup stays lexical.
     function_scopes: Vec<Vec<FunctionDef<'a>, &'a Arena>, &'a Arena>,
 
+    // For every scope in `env`: the function whose activation starts there (its
+    // parameter scope), if any. A variable is never looked up beyond the innermost
+    // activation of the function that declares it.
+    scope_owners: Vec<Option<FunctionId>, &'a Arena>,
+
     pub output: Vec<Value<'a>, &'a Arena>,
 
     /// Collection of runtime errors encountered during execution
@@ -310,6 +315,7 @@ impl<'a> Runtime<'a> {
         Self {
             env: Vec::new_in(arena),
             function_scopes: Vec::new_in(arena),
+            scope_owners: Vec::new_in(arena),
             output: Vec::new_in(arena),
             errors: Diagnostics::new(arena),
             arena,
@@ -619,6 +625,7 @@ impl<'a> Runtime<'a> {
     /// pool-managed strings in its variables.
     fn pop_scope(&mut self) {
         self.function_scopes.pop();
+        self.scope_owners.pop();
         if let Some(scope) = self.env.pop() {
             for slot in &scope {
                 unsafe { slot.value.return_to_pool(&self.pool) };
@@ -841,6 +848,9 @@ impl<'a> Runtime<'a> {
         let param_ids = self.bound_param_ids(func_def.id, func_def.params);
         let has_frame = self.has_frame_arena();
         self.push_scope_with_capacity(func_def.params.params.len(), self.frame);
+        if let Some(owner) = self.scope_owners.last_mut() {
+            *owner = func_def.id;
+        }
         let param_scope =
             self.env.last_mut().expect("Parameter scope should exist immediately after push");
         for ((param, maybe_local), arg) in
@@ -1577,13 +1587,11 @@ impl<'a> Runtime<'a> {
         let pool = &self.pool;
         let frame = self.frame;
 
-        for scope in self.env.iter_mut().rev() {
-            if let Some(slot) = scope.iter_mut().rev().find(|slot| slot.id == Some(local)) {
-                Self::overwrite_slot(&mut slot.value, val, has_frame, pool, frame);
-                return true;
-            }
-        }
-        false
+        let Some((scope, slot)) = self.find_local_slot(local) else {
+            return false;
+        };
+        Self::overwrite_slot(&mut self.env[scope][slot].value, val, has_frame, pool, frame);
+        true
     }
 
     fn assign_var(&mut self, name: &'a str, val: Value<'a>) -> bool {
@@ -1760,6 +1768,7 @@ impl<'a> Runtime<'a> {
     fn push_scope_with_capacity(&mut self, var_capacity: usize, arena: &'a Arena) {
         self.env.push(Vec::with_capacity_in(var_capacity, arena));
         self.function_scopes.push(Vec::new_in(arena));
+        self.scope_owners.push(None);
     }
 
     #[inline]
@@ -1773,11 +1782,25 @@ impl<'a> Runtime<'a> {
     }
 
     fn lookup_local_mut(&mut self, local: LocalId) -> Option<&mut Value<'a>> {
-        for scope in self.env.iter_mut().rev() {
-            for slot in scope.iter_mut().rev() {
-                if slot.id == Some(local) {
-                    return Some(&mut slot.value);
-                }
+        let (scope, slot) = self.find_local_slot(local)?;
+        Some(&mut self.env[scope][slot].value)
+    }
+
+    /// Position of the live slot of `local`, searching the innermost scopes first and
+    /// stopping at the innermost activation of the function that declares it: when that
+    /// activation has not executed the declaration yet (a hoisted function ran first),
+    /// an older activation of the same function holds a different variable.
+    fn find_local_slot(&self, local: LocalId) -> Option<(usize, usize)> {
+        let owner = self
+            .facts()
+            .and_then(|facts| facts.locals.get(local.0 as usize))
+            .map(|info| info.owner);
+        for (scope_idx, scope) in self.env.iter().enumerate().rev() {
+            if let Some(slot_idx) = scope.iter().rposition(|slot| slot.id == Some(local)) {
+                return Some((scope_idx, slot_idx));
+            }
+            if owner.is_some() && self.scope_owners[scope_idx] == owner {
+                return None;
             }
         }
         None
@@ -1902,12 +1925,8 @@ impl<'a> Runtime<'a> {
     }
 
     fn lookup_local_env(&self, local: LocalId) -> Option<&Value<'a>> {
-        self.env.iter().rev().find_map(|scope| {
-            scope
-                .iter()
-                .rev()
-                .find_map(|slot| if slot.id == Some(local) { Some(&slot.value) } else { None })
-        })
+        let (scope, slot) = self.find_local_slot(local)?;
+        Some(&self.env[scope][slot].value)
     }
 }
 
